@@ -48,7 +48,7 @@ def run(ctx):
     nested += [e for e in shapes.values() if e not in nested][:: (4 if ctx.tier == "quick" else 1)]
     chosen = [e for i, e in enumerate(entries) if ({kn[k] for k, _ in e["operands"]} & special) or
               (ctx.tier == "thorough") or i % 16 == ctx.seed % 16]
-    ctx.bounds.append("parser: %d entries at top level, %d opcodes nested under OpSpecConstantOp; decoder: buffers <= 12 bytes; loader: all opcodes x 3 states" % (
+    ctx.bounds.append("parser: %d entries at top level, %d opcodes nested under OpSpecConstantOp; decoder: buffers <= 12 bytes (string requests: <= 6 quick / <= 8 thorough); loader: all opcodes x 3 states" % (
         len(chosen), len(nested)))
     npaths = 0
     for e in chosen:
@@ -95,9 +95,9 @@ def run(ctx):
     ctx.validated = rp.count
     hs = ["k_dec_word", "k_dec_words", "k_dec_bit64", "k_dec_string_small", "k_words_view"]
     if ctx.tier == "thorough":
-        hs += ["k_dec_string", "k_dec_typed", "k_dec_limit"]
+        hs += ["k_dec_string_mid", "k_dec_string", "k_dec_typed", "k_dec_limit"]
     res = kani.run_many(hs, cap_s=1500 if ctx.tier == "quick" else 3000)
-    kani.settle(ctx, res, lambda h: h[2:])
+    kani.settle(ctx, res, lambda h: h[2:], optional=("k_dec_string",))   # 12-byte strings: added depth only (CBMC memory), <= 8 bytes required
     ctx.extra["states"] = len(chosen)
     ctx.extra["transitions"] = npaths
     ctx.extra["harness_times_s"] = {h: round(r.time, 1) for h, r in res.items()}
